@@ -40,7 +40,8 @@ V_noise(e) ==
              Fail(e.mode # "std" /\ (Len(c.scale) # Len(e.snr) \/ \E i \in 1..Len(c.scale) : ~ScaleOK(c.scale[i], Scale2(e, i))), "C15.scale_rule")) \cup
             Fail(Len(e.out) # Len(e.a) \/ \E i \in 1..Len(e.a) : ~Near(e.out[i], RAdd(e.a[i], e.draw[i]), Tol), "C15.additive") \cup
             Fail(e.via = "weaver" /\ ~e.wx_same, "C15.x_unchanged") \cup
-            Fail(~e.rep_same, "C15.reproducible")
+            Fail(~e.rep_same, "C15.reproducible") \cup
+            Fail(e.via = "function" /\ ~e.in_same, "impl.noise_input_modified")
 
 (* ---- C16 ---------------------------------------------------------------------------------------------------------
    event: [fn |-> "smooth", n, s_given, yf (input values as recorded), out (Weaver.smooth(s).get()), out_none (s omitted),
